@@ -57,6 +57,19 @@ def make_cases(tier, seed, n_random=None, n_productive=None, maxlen=None):
             cases.append(dict(name=name + "#intV", g=dom_cfg.int_terminals(g), sr=srs[i % len(srs)],
                               maxlen=min(maxlen, 3), chains=[("renumber", "renumber"), dom_cfg.EARLEY_PREP, ("cnf", "renumber")],
                               singles=["renumber", "cnf", "nullaryremove", "rename[tuple]"]))
+    # EXACT duplicate rules (same weight, head and body - the quantifier lists 'duplicate rules'; the generic-weight corpus gives
+    # duplicates different weights) - strengthened after the independently seeded change C06-2
+    from fractions import Fraction as F
+    from vlib.spec.cfgspec import G
+    dups = {
+        "dup_exact_unfoldable": G("N0", frozenset("ab"), [(F(1, 2), "N0", ("N1", "b")), (F(1, 2), "N0", ("N1", "b")), (F(1, 3), "N1", ("a",)),
+                                                        (F(1, 5), "N1", ("a", "N1"))]),
+        "dup_exact_everything": G("N0", frozenset("a"), [(F(1, 7), "N0", ("N0", "N0")), (F(1, 7), "N0", ("N0", "N0")), (F(1, 3), "N0", ("a",)),
+                                                       (F(1, 3), "N0", ("a",)), (F(1, 11), "N0", ()), (F(1, 11), "N0", ())]),
+    }
+    for name, g in dups.items():
+        for sr in srs:
+            cases.append(dict(name=name, g=g, sr=sr, maxlen=maxlen, chains=all_chains if not quick else all_chains[::3], singles=True))
     return cases
 
 
